@@ -13,7 +13,7 @@ from harness import core, par, render, tlaval, tlc
 PIPES = ['generalized', 'spring', 'positional']
 
 
-def build_xml(model, acts, inj):
+def build_xml(model, acts, inj, init_qpos=None):
   kind, site = inj['kind'], inj['site']
   kw = {}
   actuators = []
@@ -80,6 +80,8 @@ def build_xml(model, acts, inj):
     a['extra'] = ' biastype="muscle"'
     a.pop('kp', None)
     a.pop('kv', None)
+  if init_qpos:
+    kw['custom'] = {'init_qpos': ' '.join(repr(float(v)) for v in init_qpos)}
   xml = render.render(model, actuators=actuators, **kw)
   if extra_act:
     if '<actuator>' in xml:
@@ -94,11 +96,13 @@ def eval_case(case):
   import mujoco
   from brax.io import mjcf
   import importlib
-  xml = build_xml(case['model'], case['acts'], case['inj'])
+  xml = build_xml(case['model'], case['acts'], case['inj'], case.get('init_qpos'))
   out = {'xml': xml, 'mj_ok': True, 'pipes': {}}
   try:
     mjm = mujoco.MjModel.from_xml_string(xml)
     mjd = mujoco.MjData(mjm)
+    if case.get('init_qpos'):      # brax's own option (the reference compiler ignores custom numerics): the nominal start pose
+      mjd.qpos[:] = case['init_qpos']
     mujoco.mj_forward(mjm, mjd)
     out['mj_xpos'] = mjd.xpos[1:].tolist()
   except Exception as e:  # the reference compiler itself refuses the document: never reaches brax
@@ -229,6 +233,22 @@ def run(ctx):
     ctx.add_tlc(res, f'MjcfLoad.tla {label}')
     cases += [{'model': s['model'], 'acts': s['acts'], 'inj': s['inj'], 'expect': s['expect']}
               for s in tlaval.parse_dump(dump + '.dump')]
+  # every second clean model carries brax's init_qpos option: the nominal start pose the loaded system must report
+  rq = core.rng(ctx, 15)
+  nclean = 0
+  for c in cases:
+    if c['inj']['kind'] != 'none':
+      continue
+    nclean += 1
+    if nclean % 2:
+      continue
+    iq = []
+    for l in c['model']['links']:
+      if l['root'] == 'free':
+        iq += [x + 0.25 for x in render.fvec(l['pos'])] + rq.choice([[1.0, 0.0, 0.0, 0.0], [0.6, 0.0, 0.8, 0.0], [0.0, 0.6, 0.0, 0.8]])
+      else:
+        iq += [rq.choice([0.0, 0.25, -0.5]) for _ in l['stack']]
+    c['init_qpos'] = iq
   kinds = {}
   skipped = {}
   for case, r in par.run('harness.drivers.c14', 'eval_case', cases, x64=False):
@@ -262,7 +282,7 @@ def run(ctx):
       exp = {'nq': want['nq'], 'nv': want['nv'], 'types': list(want['types']), 'parents': list(want['parents']),
              'qid': list(want['qid']), 'qdid': list(want['qdid'])}
       diffs = [k for k in exp if exp[k] != got[k]]
-      iq = expected_init_q(case['model'])
+      iq = case.get('init_qpos') or expected_init_q(case['model'])
       if len(iq) != len(got['init_q']) or np.max(np.abs(np.array(iq) - np.array(got['init_q']))) > 1e-6:
         diffs.append('init_q')
       if any(exp['parents'][i] >= i for i in range(len(exp['parents']))):
